@@ -31,7 +31,7 @@ def _ident_map(ir):
     return m
 
 
-def check_forwarding(p_old, p_new, probes, max_stmts=400, rng=None, want_gaps=True, want_blocks=True, chain=()):
+def check_forwarding(p_old, p_new, probes, max_stmts=400, rng=None, want_gaps=True, want_blocks=True, chain=(), soft=None):
     """Forward every statement (and gap, and a few blocks) cursor of `p_old`
     to `p_new`.  Returns a list of violation dicts (empty if fine)."""
     old_ir = p_old._loopir_proc
@@ -154,14 +154,18 @@ def check_forwarding(p_old, p_new, probes, max_stmts=400, rng=None, want_gaps=Tr
                     bad("gap-dangling", f"{type(e).__name__}: {e}", path, s)
                     continue
                 probes.hit("fwd_gap_returned")
-                if survives and an is not s:
-                    # moved anchors are legal for some edits; keep as probe unless
-                    # the statement forward itself said "same object"
-                    probes.hit("fwd_gap_anchor_differs")
+                # item 2: forward(gap) is the same-sided gap of forward(anchor).  (Both were probes
+                # first: 0 hits in >250k forwarded gaps of generated and harvested sessions on the
+                # unchanged tree.)
+                if list(map(tuple, gi._anchor._path)) != list(map(tuple, impl._path)):
+                    bad("gap-anchor-differs", f"gap {gt.name} of the statement forwards to a gap anchored at {gi._anchor._path} "
+                        f"but the statement itself forwards to {impl._path}", path, s)
+                    continue
                 if gi._type != gt:
-                    probes.hit("fwd_gap_type_changed")
+                    bad("gap-side-changed", f"{gt.name} gap forwards to a {gi._type.name} gap", path, s)
+                    continue
     if want_blocks:
-        _check_blocks(p_old, p_new, new_ir, probes, viols, rng)
+        _check_blocks(p_old, p_new, new_ir, probes, viols, rng, soft)
     return viols
 
 
@@ -185,8 +189,11 @@ def _blocks_of(ir, cap=40):
     return out
 
 
-def _check_blocks(p_old, p_new, new_ir, probes, viols, rng):
+def _check_blocks(p_old, p_new, new_ir, probes, viols, rng, soft=None):
     old_ir = p_old._loopir_proc
+    old_maps = None
+    if soft is None:
+        soft = []
     for node_path, attr, n in _blocks_of(old_ir):
         ranges = [range(0, n)]
         if n >= 2:
@@ -254,3 +261,88 @@ def _check_blocks(p_old, p_new, new_ir, probes, viols, rng):
                     probes.hit("fwd_block_member_kept")
                 else:
                     probes.hit("fwd_block_member_not_in_result")
+            # extent rules ("denotes the same statements"), by identity of uniquely occurring objects:
+            #  A. an old member that survives is found inside the extent of the forwarded block;
+            #  B. a member of the forwarded block that already existed in the old tree was, there,
+            #     a member of the block, inside one, or around (part of) it.
+            if old_maps is None:
+                old_maps = (_ident_map(old_ir), _ident_map(new_ir))
+            o_map, n_map = old_maps
+            b_paths = [tuple(map(tuple, list(bi._anchor._path) + [(bi._attr, i)])) for i in bi._range]
+            old_b_paths = [tuple(map(tuple, list(node_path) + [(attr, i)])) for i in rg]
+
+            def _within(pth, roots):
+                pth = tuple(map(tuple, pth))
+                return any(pth[: len(r_)] == r_ for r_ in roots)
+
+            def _around(pth, roots):
+                pth = tuple(map(tuple, pth))
+                return any(r_[: len(pth)] == pth for r_ in roots)
+
+            blkpath = [list(x) for x in node_path] + [[attr, [rg.start, rg.stop]]]
+            for o in olds:
+                if len(o_map.get(id(o), ())) == 1 and len(n_map.get(id(o), ())) == 1:
+                    if not _within(n_map[id(o)][0], b_paths):
+                        # a member moved out of the block's extent (lift_alloc, reorder_stmts of a
+                        # sub-block): the forwarded block denotes a SUBSET - arguable, so a probe
+                        soft.append({"sig": "block-loses-statement", "detail": f"{type(o).__name__} of the block survives at {n_map[id(o)][0]} "
+                                     f"outside the forwarded block {bi._anchor._path}.{bi._attr}[{bi._range.start}:{bi._range.stop}]",
+                                     "path": blkpath, "stmt_class": "Block", "attr": attr})
+                        break
+            # B. the forwarded block must not reach beyond the span of its own statements: a member of
+            #    the new block that was OUTSIDE the original block (and not around it) and lies before all /
+            #    after all surviving original members is "a different statement".  (exo treats a block as a
+            #    region: statements moved INTO the region legitimately become members - enshrined in
+            #    tests/golden/test_internal_cursors/test_move_forwarding_for_blocks.txt - so gains in the
+            #    interior are not judged.)
+            surv = []
+            for o in olds:
+                if len(o_map.get(id(o), ())) == 1 and len(n_map.get(id(o), ())) == 1:
+                    np_ = tuple(map(tuple, n_map[id(o)][0]))
+                    for k_, bp in enumerate(b_paths):
+                        if np_[: len(bp)] == bp:
+                            surv.append(k_)
+                            break
+            if surv:
+                lo_s, hi_s = min(surv), max(surv)
+                for k_, (nd, bp) in enumerate(zip(nodes, b_paths)):
+                    if lo_s <= k_ <= hi_s:
+                        continue
+                    if len(n_map.get(id(nd), ())) == 1 and len(o_map.get(id(nd), ())) == 1:
+                        op_ = o_map[id(nd)][0]
+                        if not (_within(op_, old_b_paths) or _around(op_, old_b_paths)):
+                            viols.append({"sig": "block-gains-statement", "detail": f"forwarded block {bi._anchor._path}.{bi._attr}"
+                                          f"[{bi._range.start}:{bi._range.stop}] reaches beyond its own statements: it contains "
+                                          f"{type(nd).__name__} which was at {op_}, outside the original block", "path": blkpath,
+                                          "stmt_class": "Block", "attr": attr})
+                            break
+
+
+def forward_map(p_old, p_new, max_stmts=80):
+    """Outcome of forwarding every statement cursor (and its before-gap) of
+    `p_old` to `p_new`, as plain data: used to check that a later call that
+    FAILS (or is interrupted) leaves earlier forwarding functions usable and
+    unchanged - they are closures created by earlier operations."""
+    old_ir = p_old._loopir_proc
+    out = []
+
+    def one(impl):
+        try:
+            r = p_new.forward(AC.lift_cursor(impl, p_old))
+        except BaseException as e:  # noqa: BLE001 - outcome is data here
+            if isinstance(e, (KeyboardInterrupt, SystemExit)):
+                raise
+            return ("exc", type(e).__name__)
+        ri = r._impl
+        if isinstance(ri, IC.Node):
+            return ("node", tuple(map(tuple, ri._path)))
+        if isinstance(ri, IC.Gap):
+            return ("gap", tuple(map(tuple, ri._anchor._path)), str(ri._type))
+        if isinstance(ri, IC.Block):
+            return ("block", tuple(map(tuple, ri._anchor._path)), ri._attr, ri._range.start, ri._range.stop)
+        return ("other", type(ri).__name__)
+
+    for path, s in stmt_paths(old_ir)[:max_stmts]:
+        n = IC.Node(old_ir, list(path))
+        out.append((tuple(map(tuple, path)), one(n), one(IC.Gap(old_ir, n, IC.GapType.Before))))
+    return out
